@@ -28,6 +28,8 @@ def random_structure_spec(rng, max_atoms=5):
     lat = h09.random_latspec(rng)
     if lat is None:
         lat = {"kind": "par", "args": [1.0, 1.0, 1.0, 90.0, 90.0, 90.0]}
+    if lat["kind"] == "base" and rng.random() < 0.6:
+        lat = {"kind": "rebase", "base": lat["base"], "first": [2.0, 3.0, 4.0, 90.0, 90.0, 90.0]}
     n = rng.choice([0, 1, 1, 2, 3, 4, max_atoms])
     atoms = []
     for k in range(n):
